@@ -209,7 +209,7 @@ def run_case(args):
             os.makedirs(os.path.join(d, m), exist_ok=True)
     env = {"PATH": "/usr/bin:/bin", "HOME": d, "XDG_CONFIG_HOME": os.path.join(d, "xdg"), "RUST_BACKTRACE": "0"}
     try:
-        p = subprocess.run([binary.encode()] + spec["argv"], cwd=d, env=env, input=spec["stdin"], stdout=subprocess.PIPE, stderr=subprocess.PIPE, timeout=60)
+        p = subprocess.run([binary.encode()] + spec["argv"], cwd=d, env=env, input=spec["stdin"], stdout=subprocess.PIPE, stderr=subprocess.PIPE, timeout=20)
         rc, out, err = p.returncode, p.stdout, p.stderr
     except subprocess.TimeoutExpired:
         rc, out, err = "hang", b"", b""
@@ -501,7 +501,7 @@ def _run(c, T, rng, tier, binary, vh, drv, root, exts, bools):
 
 # ----------------------------------------------------------------------------------------------- helpers
 def describe(cs, o):
-    return {"kind": cs.kind, "argv": [hx(a) for a in cs.argv], "argv_text": " ".join(a.decode("utf-8", "replace") for a in cs.argv),
+    return {"kind": cs.kind, "line": "cli_plan " + cs.token, "argv": [hx(a) for a in cs.argv], "argv_text": " ".join(a.decode("utf-8", "replace") for a in cs.argv),
             "config_file": (cs.files_before.get(b"my.config") or cs.files_before.get(b"xdg/comrak/config") or b"").decode("utf-8", "replace"),
             "config_mode": cs.cfg_mode, "input_mode": cs.inp, "sink": cs.sink, "documents": [hx(d) for d in cs.docs], "cli_token": cs.token,
             "plan": cs.plan, "exit": o["rc"], "stdout": hx(o["stdout"][:600]), "stderr": o["stderr"][:400].decode("utf-8", "replace")}
@@ -665,6 +665,14 @@ def splice_checks(c, T, rng, binary, vh, drv, root):
     res["nonutf8_file_name_with_config_binary"] = {"exit": o2["rc"], "stdout": o2["stdout"][:200].decode("utf-8", "replace"), "stderr": o2["stderr"][:200].decode("utf-8", "replace")}
     if not control_ok:
         c.violation("a file whose NAME is not UTF-8 is not rendered even with --config-file none", {"argv": [hx(a) for a in specs[5]["argv"]], "exit": ctrl["rc"], "stderr": ctrl["stderr"][:300].decode("utf-8", "replace")})
+    known_cls = vlib.run_lines(drv, [
+        "cli_known nonutf8 1 " + " ".join([hx("comrak"), hx("--config-file"), hx("my.config"), hx("--syntax-highlighting"), hx("none"), "!", hx("b.md")]),
+        "cli_known nonutf8 0 " + " ".join([hx("comrak"), hx("--config-file"), hx("none"), hx("--syntax-highlighting"), hx("none"), "!", hx("b.md")]),
+        "cli_known ddash 7 " + " ".join(hx(x) for x in ["comrak", "--config-file", "my.config", "--syntax-highlighting", "none", "--", "b.md", "--smart"]),
+    ])
+    res["known_class_predicates(nonutf8 with config, nonutf8 without config, double dash)"] = known_cls
+    if known_cls != ["ok 1", "ok 0", "ok 1"]:
+        c.problem("driver", "cli_known", f"extracted known-class predicates answered {known_cls}")
     if panics and not dropped:
         c.problem("correspondence", "cli.config", f"second witness of the non-UTF-8 splice: model {model[4]}, binary exit {o2['rc']} stdout {o2['stdout'][:120]!r}")
     if panics:
@@ -732,6 +740,11 @@ def failure_observations(c, T, rng, binary, root):
             continue
         case = {"name": s["name"], "argv": [a.decode("utf-8", "replace") for a in s["argv"]], "exit": o["rc"], "stdout": hx(o["stdout"][:300]), "stderr": o["stderr"][:300].decode("utf-8", "replace"),
                 "targets_intact": kept, "files": {k.decode("utf-8", "replace"): hx(v) for k, v in s["files"].items()}, "stdin": hx(s["stdin"])}
+        if s["known"] == "unknown_theme":
+            shipped = " ".join(hx(t) for t in THEMES + ["base16-mocha.dark", "base16-ocean.light", "Solarized (light)"])
+            cls = vlib.run_one(vlib.DRIVER, "cli_known theme syntax_highlighting=%s %s" % (hx("no-such-theme"), shipped))
+            if cls != "ok 1":
+                c.problem("driver", "cli_known", f"unknown_theme predicate answered {cls}")
         if s["known"] and o["rc"] == 101:
             c.known_hit(s["known"], case)
         else:
